@@ -34,6 +34,7 @@ structure Quirks where
   bitopEmptyCreates : Bool     -- D61 BITOP whose result is empty stores an empty string
   lcsRunes : Bool              -- D68 LCS compares UTF-8 runes (invalid bytes all equal U+FFFD), not bytes
   sintercardLimitGreedy : Bool -- D88 a trailing `LIMIT <int>` is the option even where numkeys makes the two words keys
+  multiBindsAtQueue : Bool     -- D25 a queued command runs on the database selected when it was queued, whatever a SELECT earlier in the same transaction did
   deriving Repr, DecidableEq
 
 def Quirks.none : Quirks :=
@@ -45,7 +46,7 @@ def Quirks.none : Quirks :=
     bitcountClamp := false, bitcountEmptyCrash := false, bfSignedOverflow64 := false,
     bfSetOverflowUsesSum := false, unlinkKeepsObject := false,
     getexNoOptPersists := false, bitposPartialEnd := false, bitopEmptyCreates := false, lcsRunes := false,
-    sintercardLimitGreedy := false }
+    sintercardLimitGreedy := false, multiBindsAtQueue := false }
 
 inductive Val where
   | str (b : Bytes)
